@@ -164,6 +164,14 @@ class ExcV(V):
         return 'ExcV(%s)' % self.what
 
 
+class OpaqueV(V):
+    """object(): a value that is only ever compared by identity (sentinels)"""
+    __slots__ = ()
+
+    def __repr__(self):
+        return 'object#%x' % (id(self) & 0xffff)
+
+
 class IterV(V):
     """an iterator over known items: consumed by next() and by loops"""
     __slots__ = ('items', 'pos')
@@ -1088,6 +1096,10 @@ class Interp:
         return self.decide('%s %s %s' % (_prov(l), sym, _prov(r)))
 
     def _known_eq(self, l, r):
+        if isinstance(l, OpaqueV) or isinstance(r, OpaqueV):
+            if isinstance(l, (Sym, SymStr)) or isinstance(r, (Sym, SymStr)):
+                return None
+            return l is r
         if isinstance(l, Const) and isinstance(r, Const):
             if l.v is None or r.v is None or isinstance(l.v, bool) or isinstance(r.v, bool):
                 return l.v is r.v
@@ -1231,7 +1243,7 @@ class Interp:
             return bool(v.v)
         if isinstance(v, (ListV, TupleV, SetV, DictV)):
             return len(v.items) > 0
-        if isinstance(v, (DocV, CtxV, FuncV, Prim, TypeV, AnnotV, BoundV, ObjV, PartialV, ExcV, IterV)):
+        if isinstance(v, (DocV, CtxV, FuncV, Prim, TypeV, AnnotV, BoundV, ObjV, PartialV, ExcV, IterV, OpaqueV)):
             return True
         if isinstance(v, SymStr):
             if v.nonempty is True:
@@ -1482,6 +1494,8 @@ class Interp:
             if init is not None:
                 self.call_function(FuncV(init), [obj] + list(args), dict(kwargs), node)
             return obj
+        if name == 'object' and not args and not kwargs:
+            return OpaqueV()
         if name in ('list', 'tuple'):
             if not args:
                 return ListV([]) if name == 'list' else TupleV([])
